@@ -355,8 +355,8 @@ func verifC22One(c bool) uint64 {
 //verif:noop (github.com/algorand/go-algorand/data/basics.Address).String
 
 // The transfer step is split by the SHAPE of the transaction (which optional
-// address fields are present) so that the shapes run in parallel; together the
-// four harnesses cover every (sender, receiver, close-to, asset-sender, amount).
+// address fields are present, zero or non-zero amount) so that the shapes run in parallel; together the
+// five harnesses cover every (sender, receiver, close-to, asset-sender, amount).
 
 // no asset-sender, no close-to: plain transfer and opt-in
 //verif:harness prop=C22 reach=done,accepted,rejected,moved,optin,destroyed unwind=8 budget=200 thorough.budget=2400
@@ -367,11 +367,11 @@ func VerifC22TransferPlain() { verifC22Transfer(false, false) }
 func VerifC22TransferClawback() { verifC22Transfer(true, false) }
 
 // close-to set, zero amount: pure close-out (possibly combined with an opt-in)
-//verif:harness prop=C22 reach=done,accepted,rejected,closed,closedfrozen,optin,destroyed unwind=8 budget=200 thorough.budget=2400
+//verif:harness prop=C22 reach=done,accepted,rejected,closed,closedfrozen,optin,destroyed unwind=8 budget=200 thorough.budget=3000
 func VerifC22TransferClose() { verifC22TransferAmt(false, true, 1) }
 
 // close-to set, non-zero amount: transfer followed by close-out of the remainder
-//verif:harness prop=C22 reach=done,accepted,rejected,closed,closedfrozen,moved unwind=8 budget=200 thorough.budget=2400
+//verif:harness prop=C22 reach=done,accepted,rejected,closed,closedfrozen,moved unwind=8 budget=200 thorough.budget=3000
 func VerifC22TransferThenClose() { verifC22TransferAmt(false, true, 2) }
 
 // both set: never accepted
